@@ -470,7 +470,7 @@ def cases(rng, ctx):
     pats = [(a, b) for a in ('', '$') for b in ('', '$')]
     pairs = [(p, q) for p in GRID_LABELS for q in GRID_LABELS]
     if not thorough:
-        pairs = rng.sample(pairs, 12 * scale)
+        pairs = rng.sample(pairs, min(len(pairs), 12 * scale))
     for (c1, r1), (c2, r2) in pairs:
         for (ca, ra) in pats:
             for (cb, rb) in (pats if thorough else [rng.choice(pats)]):
@@ -656,6 +656,8 @@ def agree(c, ans, model_ans):
         if not (isinstance(m, list) and len(m) == 2):
             return False
         mrec, mlog = m
+        if fx.logical_reaches_aggregate((e[1], e[2]) for e in ans['log'] if e[0] == 'fn'):
+            return True      # see fx.AGGREGATES: a logical item of an aggregate is outside the value-level comparison
         r = fx.record_matches(mrec, ans['rec'], rel=1e-9)
         if r is False:
             return False
